@@ -20,7 +20,7 @@ import (
 )
 
 func c18Workload(rt *rapid.T, ev *evid.Rec) {
-	o := machineOpts{MaxDecls: 4, Kinds: []string{"log", "tx", "trace"}, MaxBatch: 8, MaxConc: 8, InitBlocks: [2]int{4, 10}, Starts: []string{"one", "mid"}, NeedParent: true, SameEvent: true, Filters: true}
+	o := machineOpts{MaxDecls: 4, Kinds: []string{"log", "tx", "trace"}, MaxBatch: 8, MaxConc: 8, InitBlocks: [2]int{4, 10}, Starts: []string{"one", "mid"}, NeedParent: true, SameEvent: true, Filters: true, TwoSources: true}
 	m := newMachine(rt, o)
 	defer m.Close()
 	w := m.w
@@ -81,17 +81,22 @@ func c18Workload(rt *rapid.T, ev *evid.Rec) {
 	}
 	for _, mu := range muts {
 		time.Sleep(time.Duration(2+len(mu.grow)) * time.Millisecond)
-		s := w.Sources[0]
-		s.Node.Lock()
-		head := s.Node.Chain.Head().Num
-		if mu.reorg && head > uint64(mu.depth)+2 {
-			s.Node.Chain.Reorg(head-uint64(mu.depth)+1, mu.grow)
-		} else {
+		for _, s := range w.Sources {
+			s.Node.Lock()
+			head := s.Node.Chain.Head().Num
+			var contents [][]sim.Tx
 			for _, txs := range mu.grow {
-				s.Node.Chain.Append(txs)
+				contents = append(contents, cloneTxs(txs))
 			}
+			if mu.reorg && head > uint64(mu.depth)+2 {
+				s.Node.Chain.Reorg(head-uint64(mu.depth)+1, contents)
+			} else {
+				for _, txs := range contents {
+					s.Node.Chain.Append(txs)
+				}
+			}
+			s.Node.Unlock()
 		}
-		s.Node.Unlock()
 	}
 	time.Sleep(15 * time.Millisecond)
 	close(stop)
